@@ -419,9 +419,10 @@ func vsame(cap *Captures, want *vcaps, from int) bool {
 // C37 Match / Matches / FirstMatch: for every pattern of the committed list and every subject of
 // 0..3 bytes (thorough 0..4): found or not, the match span and the spans of groups 1..9 equal
 // the backtracking reference (leftmost start, then preference order), from every start position
-// 0..len; Matches (no captures) agrees on found; no call panics.
+// 0..len; Matches (no captures) agrees on found; All yields exactly the successive matches; no
+// call panics.
 //
-//symgo:harness prop=C37 tier=quick shards=4 tshards=16 timeout=400 ttimeout=1700 bounds=36_committed_patterns_(thorough_64)_each_with_a_hand-built_AST;subject_of_0..3_arbitrary_bytes_(thorough_0..4);start_positions_0..len outside=symbolic_patterns;longer_subjects;(?q)_(?m)_posix_classes;\<_\>_not_adjacent_to_\w;start_positions_outside_0..len;All;Replacement
+//symgo:harness prop=C37 tier=quick shards=4 tshards=16 timeout=400 ttimeout=1700 bounds=36_committed_patterns_(thorough_64)_each_with_a_hand-built_AST;subject_of_0..3_arbitrary_bytes_(thorough_0..4);start_positions_0..len outside=symbolic_patterns;longer_subjects;(?q)_(?m)_posix_classes;\<_\>_not_adjacent_to_\w;start_positions_outside_0..len;Replacement
 func VerifC37Match() {
 	src, root, pi := vpick()
 	s := vsubject()
@@ -467,6 +468,26 @@ func VerifC37Match() {
 			rt.Assert("first/groups", vsame(&cap, &want, 2))
 		}
 	}
+
+	// All: successive non-overlapping matches (after an empty match the search moves on one byte)
+	var got []int
+	kind = rt.TryKind(func() {
+		pat.All(s)(func(c *Captures) bool {
+			got = append(got, int(c[0]), int(c[1]))
+			return len(got) < 20
+		})
+	})
+	rt.Assert("all/no-panic", kind == 0)
+	var exp []int
+	for i := 0; i <= len(s) && vfirst(root, s, i, &want); i = max(want[1], want[0]+1) {
+		exp = append(exp, want[0], want[1])
+	}
+	rt.Observe("all-n", len(got))
+	same := len(got) == len(exp)
+	for i := 0; same && i < len(got); i++ {
+		same = got[i] == exp[i]
+	}
+	rt.Assert("all/sequence", same)
 }
 
 // C37 LastMatch(s, pos): the match that starts at the largest position <= pos (pos in 0..len),
